@@ -216,4 +216,7 @@ func c04Stream(w *W) {
 
 func init() {
 	register(&Scenario{Name: "req-retry-stream", Prop: "C04", Horizon: time.Hour, Weight: 1, Run: c04Stream})
+	// the same run judged as a byte-fidelity check: what the far application
+	// receives under resets and retransmissions is what was sent (C01)
+	register(&Scenario{Name: "retransmission-bytes", Prop: "C01", Horizon: time.Hour, Weight: 1, Run: c04Stream})
 }
